@@ -62,6 +62,38 @@ class HarnessFailure(Exception):
     (independently of the model)."""
 
 
+def bytes_repr(b):
+    """repr() of a bytes object, written out (independent of the implementation's '%r')"""
+    quote = '"' if (39 in b and 34 not in b) else "'"
+    out = ['b', quote]
+    for x in b:
+        if x == 92:
+            out.append('\\\\')
+        elif x == ord(quote):
+            out.append('\\' + quote)
+        elif x == 9:
+            out.append('\\t')
+        elif x == 10:
+            out.append('\\n')
+        elif x == 13:
+            out.append('\\r')
+        elif 32 <= x < 127:
+            out.append(chr(x))
+        else:
+            out.append('\\x%02x' % x)
+    out.append(quote)
+    return ''.join(out)
+
+
+def payload_body(data):
+    """body of a PROCESS_COMMUNICATION / PROCESS_LOG payload: the text when the data is valid UTF-8,
+    else the documented 'Undecodable: <repr of the bytes>' (the listener can recover the bytes)"""
+    try:
+        return data.decode('utf-8')
+    except UnicodeDecodeError:
+        return 'Undecodable: ' + bytes_repr(data)
+
+
 class _FakeSyslog(object):
     """Stands in for the syslog module inside supervisor.loggers (the real one
     would write to the machine's syslog)."""
@@ -74,6 +106,8 @@ class _FakeSyslog(object):
 
 # how the ordinary log of the channel is configured
 LOG_FILE, LOG_NONE, LOG_ROTATING, LOG_SYSLOG_ONLY, LOG_FILE_AND_SYSLOG = range(5)
+# [supervisord] loglevel
+LOGLEVELS = ['INFO', 'BLAT', 'WARN', 'TRAC', 'ERRO', 'DEBG', 'CRIT']
 
 
 def has_file(logmode):
@@ -90,16 +124,16 @@ class Rig(object):
         self.path = os.path.join(workdir, 'chan-%s.log' % tag)
         rig = self
 
-        class Options(object):
-            strip_ansi = False
-            loglevel = loggers.LevelsByName.INFO
-            logger = _NullLogger()
-
-            def getLogger(self, *a, **k):
-                return loggers.getLogger(*a, **k)
-
-            def readfd(self, fd):
-                return rig.pending.pop(0)
+        # a real ServerOptions: the dispatcher creates its child / capture loggers through the real
+        # ServerOptions.getLogger; only the descriptor-level calls are replaced (there is no pipe)
+        from supervisor.options import ServerOptions
+        opts = ServerOptions()
+        opts.strip_ansi = False
+        opts.loglevel = loggers.LevelsByName.INFO
+        opts.logger = _NullLogger()
+        opts.readfd = lambda fd: rig.pending.pop(0)
+        self.closed_fds = []
+        opts.close_fd = self.closed_fds.append
 
         class GConfig(object):
             name = 'grp'
@@ -109,7 +143,7 @@ class Rig(object):
 
         class Config(object):
             name = 'prog'
-            options = Options()
+            options = opts
             stdout_logfile = None
             stderr_logfile = None
             stdout_logfile_maxbytes = 0
@@ -138,7 +172,7 @@ class Rig(object):
         events.subscribe(events.ProcessCommunicationEvent, self.comm.append)
         events.subscribe(events.ProcessLogEvent, self.plog.append)
 
-    def make(self, channel, capmax, events_enabled=False, strip=False, debug=False, logmode=0):
+    def make(self, channel, capmax, events_enabled=False, strip=False, debug=False, logmode=0, loglevel=None):
         from supervisor import dispatchers
         ev = self.events
         c = self.config
@@ -163,7 +197,12 @@ class Rig(object):
         setattr(c, channel + '_capture_maxbytes', capmax)
         setattr(c, channel + '_events_enabled', events_enabled)
         self.options.strip_ansi = strip
-        self.options.loglevel = self.loggers.LevelsByName.DEBG if debug else self.loggers.LevelsByName.INFO
+        L = self.loggers.LevelsByName
+        if loglevel is None:
+            loglevel = 'DEBG' if debug else 'INFO'
+        # [supervisord] loglevel: the child and capture logs must not depend on it
+        self.options.loglevel = getattr(L, loglevel)
+        self.debug = self.options.loglevel <= L.DEBG
         self.options.logger.records = []
         if os.path.exists(self.path):
             os.unlink(self.path)
@@ -198,10 +237,12 @@ class Rig(object):
         out += [len(d.output_buffer), int(bool(d.capturemode)), len(capv), int(bool(d.closed))]
         return out
 
-    def run(self, frags, capmax, channel='stdout', events_enabled=False, strip=False, debug=False, logmode=0):
+    def run(self, frags, capmax, channel='stdout', events_enabled=False, strip=False, debug=False, logmode=0, loglevel=None):
         """`frags`: script of reads (bytes) and 'reopen' / 'clear' steps
         (POutputDispatcher.reopenlogs() / removelogs()).  -> (serialised trace, info dict)"""
-        d = self.make(channel, capmax, events_enabled, strip, debug, logmode)
+        d = self.make(channel, capmax, events_enabled, strip, debug, logmode, loglevel)
+        debug = self.debug
+        dropped = 0
         trace = []
         consumed = b''
         try:
@@ -211,6 +252,8 @@ class Rig(object):
                     trace += self._step(events_enabled, consumed)
                     continue
                 if f == 'clear':
+                    if os.path.exists(self.path):
+                        dropped += os.stat(self.path).st_size
                     d.removelogs()
                     trace += self._step(events_enabled, consumed)
                     continue
@@ -255,10 +298,23 @@ class Rig(object):
             if debug and not events_enabled and log and not self.options.logger.records:
                 raise HarnessFailure('loglevel=debug but the output was not copied to the main log')
             info = {'log': log, 'comm': comm, 'plog': plog, 'cap': capv, 'buf': d.output_buffer,
-                    'capmode': bool(d.capturemode), 'syslog': list(self.syslog.lines)}
+                    'capmode': bool(d.capturemode), 'syslog': list(self.syslog.lines), 'dropped': dropped}
+            # what a listener is handed: header and body of every event's payload
+            for e in list(self.comm) + list(self.plog):
+                head = 'processname:prog groupname:grp pid:4242' + (' channel:%s' % channel if e in self.plog else '') + '\n'
+                want = head + payload_body(e.data)
+                if e.payload() != want:
+                    raise HarnessFailure('event payload %r differs from the documented form %r' % (e.payload()[:120], want[:120]))
         finally:
             self.close()
         return trace, info
+
+
+def _describe(e):
+    if isinstance(e, HarnessFailure):
+        return str(e)
+    import traceback
+    return 'the implementation raised: ' + ''.join(traceback.format_exception(type(e), e, e.__traceback__))[-1200:]
 
 
 def wsum(trace):
@@ -287,7 +343,7 @@ def split_ref(stream, begin, end, capmax):
         pos = j + len(end)
 
 
-def judge(stream, info, begin, end, capmax, haslog=True, cleared=False):
+def judge(stream, info, begin, end, capmax, haslog=True, cleared=False, dropped=0):
     """The C08 property on one completed run.  Returns None or a reason.
     haslog=False: no ordinary log file is configured (the file must stay absent/empty).
     cleared=True: removelogs() happened during the run: the log holds a trailing part of the
@@ -297,8 +353,10 @@ def judge(stream, info, begin, end, capmax, haslog=True, cleared=False):
         if info['log']:
             return 'bytes in a log file although no log file is configured'
     elif cleared:
-        if not logged.endswith(info['log']):
-            return 'log file is not a trailing part of the bytes outside capture sections'
+        # removelogs() emptied the file when `dropped` bytes had been logged: the file at the configured
+        # path holds exactly what was logged afterwards
+        if info['log'] != logged[dropped:]:
+            return 'after removelogs() the log file does not hold exactly what was logged since'
     elif info['log'] != logged:
         return 'log file differs from the bytes outside capture sections'
     if len(info['comm']) != len(secs):
@@ -339,9 +397,10 @@ def sum_job(job):
     for mask in range(2 ** max(0, n - 1)):
         frags = frag_syms(_TABLE, syms, mask) + ([b''] if eof else [])
         try:
-            tr, info = _RIG.run(frags, capmax, channel='stdout' if (mask + n) % 2 == 0 else 'stderr', logmode=logmode)
-        except HarnessFailure as e:
-            bad.append((mask, str(e)))
+            tr, info = _RIG.run(frags, capmax, channel='stdout' if (mask + n) % 2 == 0 else 'stderr', logmode=logmode,
+                                loglevel=LOGLEVELS[(mask + len(stream)) % len(LOGLEVELS)])
+        except Exception as e:
+            bad.append((mask, _describe(e)))
             continue
         why = judge(stream, info, _TOK[0], _TOK[1], capmax, haslog=has_file(logmode))
         if why:
@@ -357,12 +416,13 @@ def exact_job(job):
         # every third script also with loglevel=debug: _log copies the data to the main log (decoded, or
         # 'Undecodable: ...' for binary output)
         tr, info = _RIG.run(frags, capmax, channel=channel, events_enabled=ev, logmode=logmode,
-                            debug=(len(frags) + capmax) % 3 == 0)
-    except HarnessFailure as e:
-        return None, str(e), None
+                            loglevel=LOGLEVELS[(len(frags) * 3 + capmax + sum(len(f) for f in frags)) % len(LOGLEVELS)])
+    except Exception as e:
+        return None, _describe(e), None
     script = frags
     frags = [f for f in script if isinstance(f, bytes)]
-    why = judge(b''.join(frags), info, _TOK[0], _TOK[1], capmax, haslog=has_file(logmode), cleared='clear' in script)
+    why = judge(b''.join(frags), info, _TOK[0], _TOK[1], capmax, haslog=has_file(logmode), cleared='clear' in script,
+                dropped=info['dropped'])
     if why is None and logmode in (LOG_SYSLOG_ONLY, LOG_FILE_AND_SYSLOG):
         # syslog receives, line by line and prefixed with the program name, what the file receives
         got = b''.join(l[len('prog '):].encode('utf-8') for l in info['syslog'])
@@ -430,9 +490,10 @@ def cuts_job(job):
     for i, (c1, c2) in enumerate(pairs):
         frags = cut_frags(s, c1, c2)
         try:
-            tr, info = _RIG.run(frags, capmax, channel='stdout' if i % 2 == 0 else 'stderr', logmode=logmode)
-        except HarnessFailure as e:
-            bad.append((c1, c2, str(e)))
+            tr, info = _RIG.run(frags, capmax, channel='stdout' if i % 2 == 0 else 'stderr', logmode=logmode,
+                                loglevel=LOGLEVELS[i % len(LOGLEVELS)])
+        except Exception as e:
+            bad.append((c1, c2, _describe(e)))
             continue
         why = judge(s, info, _TOK[0], _TOK[1], capmax, haslog=has_file(logmode))
         if why:
@@ -489,9 +550,10 @@ def strip_job(job):
     stripEscapes(section) (bounded)."""
     script, capmax, channel, logmode = job
     try:
-        tr, info = _RIG.run(script, capmax, channel=channel, strip=True, logmode=logmode)
-    except HarnessFailure as e:
-        return None, str(e)
+        tr, info = _RIG.run(script, capmax, channel=channel, strip=True, logmode=logmode,
+                            loglevel=LOGLEVELS[(len(script[0]) + capmax) % len(LOGLEVELS)])
+    except Exception as e:
+        return None, _describe(e)
     reads = [f for f in script if isinstance(f, bytes)]
     stream = b''.join(reads)
     pieces = split_pieces(stream, _TOK[0], _TOK[1], capmax)
